@@ -45,6 +45,15 @@ def handler : Handler := fun op args =>
       let more ← pMore; let T ← nat; let w ← pStream
       let r := readLoop more T 0 [] w
       pure ("ok " ++ hx r.1 ++ fmtTail r.2.1 r.2.2)) args
+  | "readtty" => run (do
+      let more ← pMore; let T ← nat; let mn ← nat; let echo ← bool; let w ← pStream
+      pure (match readTty more T mn echo w with
+        | some r => "ok " ++ hx r.1 ++ fmtTail r.2.1 r.2.2
+        | none => "err blocked")) args
+  | "polls" => run (do
+      let more ← pMore; let T ← nat; let w ← pStream
+      let r := readIter more T (w.length + 2) 0 [] w
+      pure (s!"ok {r.2}")) args
   | "avail" => run (do
       let w ← pStream
       let r := readAvail w
